@@ -85,6 +85,8 @@ func (o Op) String() string {
 		return fmt.Sprintf("SuperfluidUndelegateAndUnbondLock(lock#%d,%d/%d)", o.P, o.X, o.Y)
 	case "beginunlock":
 		return fmt.Sprintf("BeginUnlocking(lock#%d)", o.P)
+	case "unlockall":
+		return fmt.Sprintf("BeginUnlockingAll(%s)", o.A)
 	case "swap":
 		if o.X == 0 {
 			return "Swap(bond denom in)"
@@ -607,6 +609,35 @@ func (w *World) Apply(ctx sdk.Context, l *Ledger, op Op, fail func(a, s, d strin
 			fail("beginunlock.whole-lock-keeps-id", "", fmt.Sprintf("response id %d, lock %d", resp.UnlockingLockID, k.ID))
 		}
 		k.Unlocking, k.End = true, l.Now.Add(k.Dur)
+	case "unlockall":
+		// the bulk form of begin-unlock: it walks every not-unlocking lock of the owner, so it is a third way
+		// a delegated lock could start unlocking
+		r := core.Deliver(a, ctx, &lockuptypes.MsgBeginUnlockingAll{Owner: core.Acc(op.A).String()})
+		if !r.OK() {
+			for _, k := range l.Locks {
+				if k.Owner == op.A && k.SF == sfDelegated {
+					w.Vac["beginunlockingall_rejected_with_delegated_lock"]++
+					break
+				}
+			}
+			return ctx, errClass(r.Err)
+		}
+		// (the response of this message is empty by design; the ledger is updated from the request alone)
+		n := 0
+		for i := range l.Locks {
+			k := &l.Locks[i]
+			if k.Owner != op.A || k.Unlocking {
+				continue
+			}
+			if k.SF == sfDelegated {
+				fail("unlock.started-while-delegated", "BeginUnlockingAll", fmt.Sprintf("MsgBeginUnlockingAll accepted while the owner holds delegated lock %+v", *k))
+			}
+			k.Unlocking, k.End = true, l.Now.Add(k.Dur)
+			n++
+		}
+		if n > 0 {
+			w.Vac["beginunlockingall_accepted"]++
+		}
 	case "swap":
 		in, out, amt := w.BondDenom, FooDenom, mustInt(w.Cfg.SwapOsmoIn)
 		if op.X == 1 {
@@ -748,6 +779,9 @@ func (w *World) Enabled(al *Alphabet) func(ctx sdk.Context, l *Ledger, depth int
 			}
 			if has || len(l.Locks) < al.MaxLocks {
 				ops = append(ops, Op{K: "lock", A: o})
+			}
+			if has {
+				ops = append(ops, Op{K: "unlockall", A: o})
 			}
 			if len(l.Locks) < al.MaxLocks || has {
 				ops = append(ops, Op{K: "lockdel", A: o, V: 0}, Op{K: "lockdel", A: o, V: 1})
